@@ -457,6 +457,8 @@ Inductive op :=
 | ODeliverF (srg : N)                (* as ODeliver, but the standby's store write fails: the request is lost *)
 | ORedeliverF (srg seq : N)          (* as ORedeliver, with a failing store write *)
 | OReplay (srg : N) (from to : Z)    (* GetBacklog(srg).Range(from,to) through HandleSyncSession *)
+| OMutation (s : session) (ok : bool) (* SyncSender.HandleMutationResult: a successful subscriber mutation is replicated as
+                                        an UPDATE of the session it returns, whatever its state; a failed one is not *)
 | OBulk (srg : N)                    (* BulkSync from the backlog through HandleBulkSyncPage *)
 | OBulkChurn (srg : N) (k pagesz : nat) (s : session) (released : bool).
                                      (* the same while the active node keeps working: after every page sent, k more
@@ -535,6 +537,7 @@ Definition bulk_op (fl : flags) (churn : sys -> sys) (y : sys) (srg : N) (k page
 Definition sys_step (fl : flags) (y : sys) (o : op) : sys :=
   match o with
   | OEvent s released => event_op y s released
+  | OMutation s ok => if ok then event_op y s false else y
   | ODeliver srg =>
       match nth_error (sent_of srg (y_sent y)) (next_of y srg) with
       | Some q => mksys (y_sender y) (recv_step fl (y_recv y) q) (y_sent y)
